@@ -467,6 +467,7 @@ func (a *analysis) checkRecovery(x *verifkit.Exec) {
 	userStopSeq, userStopOK, shutdownSeq := -1, false, -1
 	transientSeq := -1 // first transient failure (plugin open / run / read error) of the history
 	lastUserStart := -1
+	var userStarts []int
 	transientInRun := 0
 	for _, e := range a.evs {
 		switch {
@@ -496,8 +497,9 @@ func (a *analysis) checkRecovery(x *verifkit.Exec) {
 			userStopOK = true
 		case e.Comp == "ctl" && e.Kind == "call" && e.Arg == "stopall":
 			shutdownSeq = e.Seq
-		case e.Comp == "ctl" && e.Kind == "call" && (e.Arg == "start" || e.Arg == "restart"):
+		case e.Comp == "ctl" && e.Kind == "call" && (e.Arg == "start" || e.Arg == "restart" || strings.HasPrefix(e.Arg, "start#")):
 			lastUserStart = e.Seq
+			userStarts = append(userStarts, e.Seq)
 		}
 	}
 	final := ""
@@ -536,27 +538,67 @@ func (a *analysis) checkRecovery(x *verifkit.Exec) {
 			}
 		}
 	}
-	// R3/R4: transient -> restart after a back-off within [MinDelay, MaxDelay], at most MaxRetries attempts in the window
-	attempts := 0
-	for i, s := range sts {
+	// R3/R4: transient -> restart after a back-off within [MinDelay, MaxDelay], at most MaxRetries automatic restarts in any
+	// interval as long as the retry window. A restart the USER asked for while the pipeline was recovering is not an
+	// automatic one.
+	var autoRestarts []time.Duration
+	var autoRestartSeq []int
+	for si, s := range sts {
 		if s.status != "Recovering" {
 			continue
 		}
-		// the next open after this status
+		// the status may land after a user start already replaced the failed run (the write was still in flight): the
+		// next status is Running with no source opened in between - that restart is not recovery's
+		if si+1 < len(sts) && sts[si+1].status == "Running" {
+			opened := false
+			for _, o := range opens {
+				if o.Seq > s.seq && o.Seq < sts[si+1].seq {
+					opened = true
+				}
+			}
+			if !opened {
+				continue
+			}
+		}
 		for _, o := range opens {
 			if o.Seq > s.seq {
+				byUser := false
+				for _, us := range userStarts {
+					if us > s.seq && us < o.Seq {
+						byUser = true
+					}
+				}
+				if byUser {
+					break
+				}
 				d := o.T - s.t
 				if d < rec.MinDelay || d > rec.MaxDelay+time.Second {
 					a.bad("C10/backoff-out-of-bounds", "recovery restart %v after the failure (event #%d -> #%d); configured bounds [%v, %v]", d, s.seq, o.Seq, rec.MinDelay, rec.MaxDelay)
 				}
-				attempts++
+				autoRestarts = append(autoRestarts, o.T)
+				autoRestartSeq = append(autoRestartSeq, o.Seq)
 				break
 			}
 		}
-		_ = i
 	}
-	if int64(attempts) > maxRetries && sts[len(sts)-1].t-sts[0].t < rec.MaxRetriesWindow {
-		a.bad("C10/too-many-recovery-attempts", "%d automatic restarts within the retry window although MaxRetries is %d", attempts, maxRetries)
+	for i := range autoRestarts {
+		n := 0
+		for j := i; j < len(autoRestarts) && autoRestarts[j]-autoRestarts[i] < rec.MaxRetriesWindow; j++ {
+			fresh := false // a start by the user (e.g. after Degraded) begins a new run with a fresh retry budget
+			for _, us := range userStarts {
+				if j > i && us > autoRestartSeq[j-1] && us < autoRestartSeq[j] {
+					fresh = true
+				}
+			}
+			if fresh {
+				break
+			}
+			n++
+		}
+		if int64(n) > maxRetries {
+			a.bad("C10/too-many-recovery-attempts", "%d automatic restarts within %v (at %v) although MaxRetries is %d per %v", n, rec.MaxRetriesWindow, autoRestarts[i:i+n], maxRetries, rec.MaxRetriesWindow)
+			break
+		}
 	}
 	// R7: a transient cause leads to an automatic restart: a run whose first failure is transient, with nobody stopping
 	// the pipeline, must not simply end stopped (no Recovering / Degraded status, no restart)
